@@ -82,6 +82,23 @@ def exec_session(job):
     return {"sc": sc, "ev": ev, "final": final, "others": others, "sizes": sizes, "acc": nacc}
 
 
+def exec_live(job):
+    """job = (scenario emission record, sizes, expected reply frames): the stream over a REAL loopback TCP connection, the real
+    network.recv included (rsock)"""
+    from . import sim, rsock
+    scj, sizes, expect = job
+    sc = scj["sc"]
+    dev = sim.Device(sc["cfg"], pers=sc["pers"])
+    dev.set_mem(sc["mem0"])
+    stream = bytearray()
+    for fb in scj["fb"]:
+        stream += bytearray(fb)
+    sim.reset_random(1)
+    r = rsock.session(stream, sizes, expect)
+    return {"sc": sc, "ev": r["ev"], "final": dev.get_mem(), "others": True, "sizes": sizes, "acc": 0, "prompt": r["prompt"], "finished": r["finished"],
+            "took": r["took"], "received": r["received"], "expect": expect}
+
+
 def validate(ctx, lines, name, chunk=1500):
     bad = []
     for k in range(0, len(lines), chunk):
